@@ -377,6 +377,65 @@ func judgeListing(r *ev.Report, c listingCase, look string, got []pub.Tangible, 
 	}
 }
 
+// runForeignListing: the owner's listing is served by another host (with an id of its own
+// there, or with none at all) and embeds an entry that claims an id on the owner's host
+// which the owner's host does not know, next to a reference to a genuine entry. Nothing
+// the foreign host embeds may be taken as the owner's word.
+func runForeignListing(r *ev.Report, listing string, withID bool) {
+	baseWorld()
+	uidrv.Reset()
+	foreign := evil + "/served-elsewhere/" + listing
+	var ownerDoc M
+	var forged, genuine M
+	owner := O
+	if listing == "outbox" {
+		ownerDoc = actor(O, "Owner")
+		ownerDoc["outbox"] = foreign
+		forged = M{"type": "Announce", "id": h1 + "/acts/only-claimed", "actor": actor(O, "Owner forged"), "object": note(h1+"/notes/only-claimed", "forged note"), "published": old}
+		genuine = put(M{"type": "Announce", "id": h1 + "/acts/genuine-foreign-listing", "actor": O, "object": h1 + "/notes/N1", "published": old})
+	} else {
+		owner = Q
+		ownerDoc = note(Q, "the post")
+		ownerDoc["replies"] = foreign
+		forged = note(h1+"/notes/only-claimed-reply", "forged reply")
+		forged["inReplyTo"] = Q
+		forged["attributedTo"] = O
+		genuine = note(h1+"/notes/genuine-reply-foreign-listing", "genuine reply")
+		genuine["inReplyTo"] = Q
+		put(genuine)
+	}
+	put(ownerDoc)
+	coll := M{"type": "OrderedCollection", "totalItems": 2.0, "orderedItems": []any{forged, genuine["id"]}}
+	if withID {
+		coll["id"] = foreign
+	}
+	w.Put(foreign, world.JSON(coll))
+	names := []string{"embedded-entry-claiming-an-unknown-id-on-the-owners-host/embedded", "genuine/url"}
+	expect := []string{"failure", "id:" + genuine["id"].(string)}
+	c := listingCase{Listing: listing + ":served-by-another-host", Entries: names}
+	if !withID {
+		c.Listing += ":without-id"
+	}
+	defer func() {
+		if x := recover(); x != nil {
+			r.Violation("listing:panic:"+listing, map[string]any{"case": c, "msg": fmt.Sprint(x)})
+		}
+	}()
+	for look := 0; look < 2; look++ {
+		item, ok := pub.New(owner, nil).(pub.Tangible)
+		if !ok || item.Children() == nil {
+			ev.Fatal("owner %s has no listing", owner)
+		}
+		got, _, _ := item.Children().Harvest(4, 0)
+		r.Eval(1)
+		prefix := ""
+		if look == 1 {
+			prefix = "second-look:"
+		}
+		judgeListing(r, c, prefix, got, expect, names)
+	}
+}
+
 func runAuthor(r *ev.Report, ac authorCase, via string, n int) {
 	baseWorld()
 	uidrv.Reset()
@@ -422,7 +481,7 @@ func main() {
 		"outbox of actor O: 15 activity kinds (by owner: Announce/Like/Create, hosted elsewhere, owner embedded; impostors: same-host peer, foreign actor, missing/unfetchable actor, non-activity, peer named like the owner; forged owner copy from another host) x 4 representations "+
 			"(embedded, URL, stub{id}, stub{id,type}) + 404 + junk; replies of post Q: 16 reply kinds (genuine incl. other host / fragment / forged embedded parent; other parent, trailing slash, none, unfetchable, same path other host, tombstone, actor, foreign author, self-reply) x {embedded, URL}; "+
 			"every single entry, every ordered pair and (thorough) every ordered triple over a reduced set, inline and split across a remote page; 12 author cases (same/foreign host, embedded claims, missing ids on either side, unfetchable, two authors) directly and as an announced object; "+
-			"entries behind a redirect from the owner's host to a forged or foreign document on another host; each listing position compared with ground truth, at the first look and again at a second look when everything is cached; distinct_nontrivial = listings containing at least one impostor")
+			"listings served by another host (with and without an id) that embed entries claiming ids on the owner's host; entries behind a redirect from the owner's host to a forged or foreign document on another host; each listing position compared with ground truth, at the first look and again at a second look when everything is cached; distinct_nontrivial = listings containing at least one impostor")
 	if *ev.FlagReplay != "" {
 		var d struct {
 			Case listingCase `json:"case"`
@@ -437,7 +496,12 @@ func main() {
 				}
 			}
 		}
-		if len(es) > 0 {
+		if strings.Contains(d.Case.Listing, "served-by-another-host") {
+			for _, listing := range []string{"outbox", "replies"} {
+				runForeignListing(r, listing, true)
+				runForeignListing(r, listing, false)
+			}
+		} else if len(es) > 0 {
 			runListing(r, d.Case.Listing, es, d.Case.Paged)
 		}
 		for i, ac := range authorCases() {
@@ -461,6 +525,12 @@ func main() {
 				r.Distinct(fmt.Sprint(listing, n, paged))
 				break
 			}
+		}
+	}
+	for _, listing := range []string{"outbox", "replies"} {
+		for _, withID := range []bool{true, false} {
+			runForeignListing(r, listing, withID)
+			r.Distinct(fmt.Sprint("foreign", listing, withID))
 		}
 	}
 	for _, e := range acts {
